@@ -136,6 +136,19 @@ def r_accum(prog, tier):
                     ok, why = False, 'the call does not pass the rule count at all: binarize_rule falls back to its default'
                 else:
                     ok, why = _count_source(f, arg, n.id, G)
+                    if ok and isinstance(arg, ast.Name):
+                        # inside a loop over the vertical contexts of the rule the count must be the context's own
+                        ctx_loops = [cfg.nodes[l] for l in n.loops if cfg.nodes[l].kind == 'iter'
+                                     and _sub_depth(cfg.nodes[l].ast.iter.func.value if isinstance(cfg.nodes[l].ast.iter, ast.Call)
+                                                    and isinstance(cfg.nodes[l].ast.iter.func, ast.Attribute)
+                                                    else cfg.nodes[l].ast.iter)[0] == 2]
+                        sums = [v for (nid, v) in name_defs(f, arg.id) if isinstance(v, ast.Call) and unparse(v.func) == 'sum'
+                                and any(l.id in cfg.nodes[nid].loops for l in ctx_loops)]
+                        if ctx_loops and sums:
+                            ok = False
+                            why = '`%s = %s` is the total over all vertical contexts, but it is handed over once per context ' \
+                                  '(loop `for %s in %s`): a rule seen in k contexts is counted k times over' % (
+                                      arg.id, unparse(sums[0])[:50], unparse(ctx_loops[0].ast.target), unparse(ctx_loops[0].ast.iter)[:40])
                 obs.append(Ob('R-ACCUM/HANDOVER', f.fq, 'the count handed to binarize_rule (`%s`) is the rule\'s own '
                               'count from the source grammar' % (unparse(arg) if arg is not None else '?'), ok, why,
                               construct='handover:%d' % ncalls, line=n.lineno))
@@ -1160,6 +1173,31 @@ def r_discont(prog, tier):
         elif unparse(g.generators[0].iter) == 'trees.preorder(%s)' % f.params[0] \
                 and unparse(g.elt) == 'gap_degree_node(%s)' % unparse(g.generators[0].target):
             ok, why = True, 'max over trees.preorder(tree), no filter'
+    if ok is None:
+        # loop form: result = max(result, v) / if v > result: result = v  - anything else lets the last (or any) node win
+        cfg_ = f.cfg
+        rv = rets[0].value.id if len(rets) == 1 and isinstance(rets[0].value, ast.Name) else None
+        if rv:
+            upd = [(nid, v) for (nid, v) in name_defs(f, rv) if cfg_.nodes[nid].loops and isinstance(v, ast.AST)]
+            good = bad = 0
+            for (nid, v) in upd:
+                if isinstance(v, ast.Call) and unparse(v.func) == 'max' and rv in [unparse(a_) for a_ in v.args]:
+                    good += 1
+                    continue
+                facts = [x[0] for x in facts_at(cfg_, nid)]
+                vs = unparse(v)
+                if ('cmp', rv, '<', vs) in facts or ('cmp', rv, '<=', vs) in facts:
+                    good += 1
+                elif 'gap_degree_node' in vs or any(isinstance(d_, ast.AST) and 'gap_degree_node' in unparse(d_)
+                                                    for x_ in ast.walk(v) if isinstance(x_, ast.Name)
+                                                    for (_, d_) in name_defs(f, x_.id)):
+                    bad += 1
+                    badv = vs
+            if bad:
+                ok, why = False, '`%s = %s` inside the loop is not guarded by a comparison with the running maximum: the ' \
+                                 'degree of the last such node wins, not the largest' % (rv, badv)
+            elif good:
+                ok, why = True, 'running maximum over the nodes'
     obs.append(Ob('R-DISCONT/CHAIN', f.fq, 'gap_degree is the maximum of gap_degree_node over all nodes', ok, why,
                   construct='chain-max', line=f.node.lineno))
     f = prog.func('treeanalysis', 'has_gaps')
